@@ -125,13 +125,35 @@ pub fn skeleton<T: TreeView>(t: &T, doc: &T::H) -> Result<(), String> {
     Ok(())
 }
 
+pub const KF_AFE_FRAMESET: &str = "KF-C06-formatting-reconstructed-after-frameset";
+
+/// Signature of the known finding: the only clause broken is "an element child of html after
+/// frameset that is not noframes", and that child is a formatting element (the standard's
+/// after-after-frameset mode processes whitespace by the in-body rules, which reconstruct the
+/// active formatting elements left over from the replaced body).
+fn is_kf_formatting_after_frameset(e: &str) -> bool {
+    const FMT: &[&str] = &["a", "b", "big", "code", "em", "font", "i", "nobr", "s", "small", "strike", "strong", "tt", "u"];
+    e.starts_with("html has an element child after frameset that is not noframes")
+        && FMT.iter().any(|n| e.contains(&format!("local: \"{n}\"")))
+}
+
 pub fn check(tc: &TreeCase, st: &mut Stats) -> Result<(), String> {
+    check_kf(tc, st, false)
+}
+
+pub fn check_kf(tc: &TreeCase, st: &mut Stats, tolerate_kf: bool) -> Result<(), String> {
     st.eval();
     if tc.cfg.ctx.is_some() {
         return Err("C06 is about parse_document only (bad case)".into());
     }
     let (mdom, _, _) = drive(ModelDom::new(), &tc.cfg, &tc.chunks, |_, _, _, _| {});
-    skeleton(&ModelView(&mdom), &DOC).map_err(|e| format!("ModelDom tree: {e}"))?;
+    if let Err(e) = skeleton(&ModelView(&mdom), &DOC) {
+        if tolerate_kf && is_kf_formatting_after_frameset(&e) {
+            st.exclude(KF_AFE_FRAMESET);
+            return Ok(());
+        }
+        return Err(format!("ModelDom tree: {e}"));
+    }
     let (rdom, _, _) = drive(RcDom::default(), &tc.cfg, &tc.chunks, |_, _, _, _| {});
     skeleton(&RcView, &rdom.document).map_err(|e| format!("RcDom tree: {e}"))?;
 
@@ -211,7 +233,8 @@ pub fn run(ctx: &Ctx) -> Report {
     rep.assume("'frameset optionally followed by noframes' is read as zero or more noframes elements: the standard's after-frameset mode inserts every <noframes> it sees, so a literal 'at most one' would contradict the WHATWG algorithm (C02)");
     report_known(ctx, &mut rep, &|v| replay(&ctx.strict_clone(), v));
     run_regressions(ctx, &mut rep, &|v| replay(&ctx.strict_clone(), v));
-    let out = run_random(ctx.seed, ctx.tier.pick(2_000_000, 30_000_000), 1500, decode, check);
+    let tol = ctx.tolerate(KF_AFE_FRAMESET);
+    let out = run_random(ctx.seed, ctx.tier.pick(2_000_000, 30_000_000), 1500, decode, |c, st| check_kf(c, st, tol));
     rep.absorb(out);
     for l in [
         "frameset document",
